@@ -1,5 +1,6 @@
 import OtelVerif.Model.C14Types
 import OtelVerif.Gen.Opaque
+import OtelVerif.Gen.SquashHook
 /-!
 # C14 model: opaque strings under `fmt`, under the marshalling libraries, and under the config-map encoder
 
@@ -428,15 +429,18 @@ end
 /-- mapstructure assigns a string to a field of string kind as it is (the type has no `UnmarshalText`) -/
 def plainStored (s : String) : String := s
 
-/-- `confmap.unmarshalerEmbeddedStructsHookFunc`: a field tagged `,squash` whose struct has its own
-`Unmarshal` is unmarshalled, then **marshalled** (`conf.Marshal(unmarshaler)`) and the resulting map is
-merged into the map the outer struct is decoded from — so an opaque field of it is finally decoded
-from what the encoder wrote for it. -/
-def squashHookStored (td : TD) (s : String) : String :=
-  match enc td (fun _ => s) (.opq 0) with
-  | .ok (.str t) => plainStored t
-  | .ok (.rawTyped t) => plainStored t
-  | _ => s
+/-- `confmap.unmarshalerEmbeddedStructsHookFunc` for a field tagged `,squash` whose struct has its own
+`Unmarshal`: the struct is unmarshalled and then **marshalled**; if the hook merges that map back into
+the map the outer struct is decoded from (`remarshals`, regenerated from the source), an opaque field
+is finally decoded from what the encoder wrote for it; otherwise (the keys are removed from the map)
+the unmarshalled field is kept. -/
+def squashHookStored (remarshals : Bool) (td : TD) (s : String) : String :=
+  if remarshals then
+    match enc td (fun _ => s) (.opq 0) with
+    | .ok (.str t) => plainStored t
+    | .ok (.rawTyped t) => plainStored t
+    | _ => s
+  else plainStored s
 
 /-! ### canonical printing (what the harness prints for `Conf.ToStringMap()`) -/
 
@@ -494,5 +498,23 @@ def Any.stringsKV : List (String × Any) → List String
   | [] => []
   | (k, v) :: kvs => k :: (v.strings ++ Any.stringsKV kvs)
 end
+
+mutual
+/-- every value handed on with its Go type is an array -/
+def Any.typedAreArrays : Any → Bool
+  | .typed (.array _) => true
+  | .typed _ => false
+  | .rawTyped _ => false
+  | .list xs => Any.typedAreArraysL xs
+  | .map kvs => Any.typedAreArraysKV kvs
+  | _ => true
+def Any.typedAreArraysL : List Any → Bool
+  | [] => true
+  | x :: xs => x.typedAreArrays && Any.typedAreArraysL xs
+def Any.typedAreArraysKV : List (String × Any) → Bool
+  | [] => true
+  | (_, v) :: kvs => v.typedAreArrays && Any.typedAreArraysKV kvs
+end
+
 
 end OtelVerif.C14
